@@ -38,14 +38,63 @@ pub enum Fault {
     ShortRead { sizes: Vec<usize> },
     /// ErrorKind::Interrupted at read() call number `call` (1-based)
     Eintr { call: u64 },
-    /// one Err(Other) at read() call number `call`, data intact afterwards
-    EioOnce { call: u64 },
-    /// every read() at or beyond byte offset `offset` fails
-    EioFrom { offset: usize },
+    /// one Err(kind) at read() call number `call`, data intact afterwards
+    EioOnce {
+        call: u64,
+        #[serde(default)]
+        kind: ErrKind,
+    },
+    /// every read() at or beyond byte offset `offset` fails with Err(kind)
+    EioFrom {
+        offset: usize,
+        #[serde(default)]
+        kind: ErrKind,
+    },
     /// the stored byte at `offset` is replaced (breaks UTF-8)
     BadUtf8 { offset: usize, byte: u8 },
     /// end of file at byte offset `offset`
     Truncate { offset: usize },
+}
+
+/// The io::ErrorKind of an injected read error. A loader has no business treating any of them as
+/// "try again": BufReader has already consumed the part of the line it had read (only
+/// `Interrupted` is retried, inside std, without loss).
+#[derive(Serialize, Deserialize, Clone, Copy, Debug, PartialEq, Eq, Default)]
+pub enum ErrKind {
+    #[default]
+    Other,
+    WouldBlock,
+    TimedOut,
+    UnexpectedEof,
+    BrokenPipe,
+    PermissionDenied,
+    InvalidData,
+    ConnectionReset,
+}
+
+impl ErrKind {
+    fn to_io(self) -> io::ErrorKind {
+        match self {
+            ErrKind::Other => io::ErrorKind::Other,
+            ErrKind::WouldBlock => io::ErrorKind::WouldBlock,
+            ErrKind::TimedOut => io::ErrorKind::TimedOut,
+            ErrKind::UnexpectedEof => io::ErrorKind::UnexpectedEof,
+            ErrKind::BrokenPipe => io::ErrorKind::BrokenPipe,
+            ErrKind::PermissionDenied => io::ErrorKind::PermissionDenied,
+            ErrKind::InvalidData => io::ErrorKind::InvalidData,
+            ErrKind::ConnectionReset => io::ErrorKind::ConnectionReset,
+        }
+    }
+    const ALL: [ErrKind; 8] = [
+        ErrKind::Other,
+        ErrKind::WouldBlock,
+        ErrKind::TimedOut,
+        ErrKind::UnexpectedEof,
+        ErrKind::BrokenPipe,
+        ErrKind::PermissionDenied,
+        ErrKind::InvalidData,
+        ErrKind::ConnectionReset,
+    ];
 }
 
 impl Fault {
@@ -110,17 +159,18 @@ impl Read for SimFile {
                     fire(&self.stats, "eintr");
                     return Err(io::Error::new(io::ErrorKind::Interrupted, "injected EINTR"));
                 }
-                Fault::EioOnce { call: c } if *c == call => {
+                Fault::EioOnce { call: c, kind } if *c == call => {
                     fire(&self.stats, "eio_once");
+                    fire(&self.stats, &format!("error_kind_{:?}", kind));
                     self.stats.borrow_mut().errors_returned += 1;
                     self.calls_since_error.get_or_insert(0);
-                    return Err(io::Error::new(io::ErrorKind::Other, "injected EIO (once)"));
+                    return Err(io::Error::new(kind.to_io(), "injected read error (once)"));
                 }
-                Fault::EioFrom { offset } if self.pos >= *offset => {
+                Fault::EioFrom { offset, kind } if self.pos >= *offset => {
                     fire(&self.stats, "eio_from");
                     self.stats.borrow_mut().errors_returned += 1;
                     self.calls_since_error.get_or_insert(0);
-                    return Err(io::Error::new(io::ErrorKind::Other, "injected EIO (persistent)"));
+                    return Err(io::Error::new(kind.to_io(), "injected read error (persistent)"));
                 }
                 _ => {}
             }
@@ -136,7 +186,7 @@ impl Read for SimFile {
                         fire(&self.stats, "short_read");
                     }
                 }
-                Fault::EioFrom { offset } if self.pos < *offset => {
+                Fault::EioFrom { offset, .. } if self.pos < *offset => {
                     // deliver the bytes before the bad region, then fail
                     n = n.min(*offset - self.pos);
                 }
@@ -438,8 +488,8 @@ fn gen_faults(rng: &mut Rng, len: usize) -> Vec<Fault> {
                 Fault::ShortRead { sizes: (0..k).map(|_| *rng.pick(&[1usize, 2, 3, 7, 16, 61, 200])).collect() }
             }
             1 => Fault::Eintr { call: rng.range(1, 12) },
-            2 => Fault::EioOnce { call: rng.range(1, 12) },
-            3 => Fault::EioFrom { offset: rng.usize_below(len + 1) },
+            2 => Fault::EioOnce { call: rng.range(1, 12), kind: *rng.pick(&ErrKind::ALL) },
+            3 => Fault::EioFrom { offset: rng.usize_below(len + 1), kind: *rng.pick(&ErrKind::ALL) },
             4 => Fault::BadUtf8 { offset: rng.usize_below(len.max(1)), byte: *rng.pick(&[0xFFu8, 0xC0, 0xC1, 0xFE]) },
             _ => Fault::Truncate { offset: rng.usize_below(len + 1) },
         };
@@ -587,8 +637,8 @@ fn minimise(scn: &Scenario, v: &Violation) -> (Scenario, Violation, Exec, u64) {
             let cands: Vec<Fault> = match &best.faults[i] {
                 Fault::ShortRead { sizes } if sizes.len() > 1 => vec![Fault::ShortRead { sizes: vec![sizes[0]] }],
                 Fault::Truncate { offset } if *offset > 0 => vec![Fault::Truncate { offset: offset / 2 }, Fault::Truncate { offset: offset - 1 }],
-                Fault::EioFrom { offset } if *offset > 0 => vec![Fault::EioFrom { offset: 0 }, Fault::EioFrom { offset: offset / 2 }],
-                Fault::EioOnce { call } if *call > 1 => vec![Fault::EioOnce { call: 1 }, Fault::EioOnce { call: call - 1 }],
+                Fault::EioFrom { offset, kind } if *offset > 0 => vec![Fault::EioFrom { offset: 0, kind: *kind }, Fault::EioFrom { offset: offset / 2, kind: *kind }],
+                Fault::EioOnce { call, kind } if *call > 1 => vec![Fault::EioOnce { call: 1, kind: *kind }, Fault::EioOnce { call: call - 1, kind: *kind }],
                 _ => vec![],
             };
             for f in cands {
@@ -746,7 +796,7 @@ fn account(t: &mut Totals, scn: &Scenario, ex: &Exec, verdict: &Verdict, seed: u
     }
     for f in &scn.faults {
         let land = match f {
-            Fault::BadUtf8 { offset, .. } | Fault::Truncate { offset } | Fault::EioFrom { offset } => landing_class(scn, *offset),
+            Fault::BadUtf8 { offset, .. } | Fault::Truncate { offset } | Fault::EioFrom { offset, .. } => landing_class(scn, *offset),
             _ => "-",
         };
         t.combos.insert(format!("{:?}/{}/{}", scn.rendered.class, f.kind(), land));
@@ -779,11 +829,13 @@ fn enumerate_faults(scn: &Scenario) -> Vec<Vec<Fault>> {
     let calls = (len / 7 + 3) as u64;
     for c in 1..=calls {
         out.push(vec![short.clone(), Fault::Eintr { call: c }]);
-        out.push(vec![short.clone(), Fault::EioOnce { call: c }]);
+        // the kind of error rotates with the position, so every kind meets every sort of place
+        out.push(vec![short.clone(), Fault::EioOnce { call: c, kind: ErrKind::ALL[(c as usize) % ErrKind::ALL.len()] }]);
+        out.push(vec![short.clone(), Fault::EioOnce { call: c, kind: ErrKind::ALL[(c as usize + 3) % ErrKind::ALL.len()] }]);
     }
     for off in 0..=len {
         out.push(vec![Fault::Truncate { offset: off }]);
-        out.push(vec![short.clone(), Fault::EioFrom { offset: off }]);
+        out.push(vec![short.clone(), Fault::EioFrom { offset: off, kind: ErrKind::ALL[off % ErrKind::ALL.len()] }]);
         if off < len {
             out.push(vec![Fault::BadUtf8 { offset: off, byte: 0xFF }]);
         }
